@@ -653,16 +653,22 @@ class Update(object):
                     pass
                 del run.log[:]
                 run.after_reload = run.after_reload_enc = None
-            s0 = run.snapshot()
-            run.write(new_text)
-            out = run.update(sc['args'])
-            for _ in range(2):
-                pass
-            s1 = run.snapshot()
-            try:
-                cinfo = run.rpc.getAllConfigInfo()
-            except Exception as e:
-                cinfo = repr(e)
+            phases = [self.phase(run, new_text, sc['args'])]
+            if sc.get('second_update'):
+                # the operator runs `update` again after the processes that were still STOPPING have gone
+                ph = phases[0]
+                subs = self.offer_event(run)
+                if subs:
+                    replay.update(kind='a group that is still active (its removal was refused or never tried) no longer '
+                                       'receives the events it subscribes to', pools=subs, log=repr(ph['log']))
+                    self.violation(replay)
+                for g in ph['s1']['groups']:
+                    for p in g['procs']:
+                        if p[2] == 40 and p[1] in run.kernel.live:
+                            run.kernel._die(p[1], 9)
+                for _ in range(3):
+                    run.one_pass()
+                phases.append(self.phase(run, new_text, sc['args']))
         finally:
             run.close()
         # the file as it is now, by a reader of its own (after the simulated kernel is uninstalled)
@@ -679,19 +685,61 @@ class Update(object):
                 self.violation(replay, nofail=True)
                 return
         self.fresh = fresh
+        for k, ph in enumerate(phases):
+            rp = dict(replay)
+            if len(phases) > 1:
+                rp['steps'] = ('boot(old), write(new), update' if k == 0 else
+                               'boot(old), write(new), update, the STOPPING children exit, update again  <-- judged here')
+                rp['first_update_log'] = repr(phases[0]['log'])
+            self.judge_phase(sc, run, ph, rp)
+
+    def phase(self, run, new_text, args):
+        """one `update` (the file is written first): snapshots around it and what the client saw"""
+        del run.log[:]
+        run.after_reload = run.after_reload_enc = None
+        s0 = run.snapshot()
+        run.write(new_text)
+        out = run.update(args)
+        s1 = run.snapshot()
+        try:
+            cinfo = run.rpc.getAllConfigInfo()
+        except Exception as e:
+            cinfo = repr(e)
+        return {'s0': s0, 's1': s1, 'out': out, 'log': list(run.log), 'after_reload': run.after_reload,
+                'after_reload_enc': run.after_reload_enc, 'cinfo': cinfo}
+
+    def offer_event(self, run):
+        """every active listener pool must still be subscribed: offer one event of each type it
+        subscribes to and see it arrive in the pool's buffer.  Returns the pools that are deaf."""
+        from supervisor import events
+        from supervisor.process import EventListenerPool
+        deaf = []
+        for name, grp in run.sup.process_groups.items():
+            if not isinstance(grp, EventListenerPool):
+                continue
+            types = grp._subscription_types() if hasattr(grp, '_subscription_types') else grp.config.pool_events
+            for et in types:
+                if (et, grp._acceptEvent) not in events.callbacks:
+                    deaf.append('%s is not subscribed to %s any more' % (name, et.__name__))
+        return deaf
+
+    def judge_phase(self, sc, run, ph, replay):
+        from supervisor.xmlrpc import Faults
+        R, chk = self.R, self.chk
+        s0, s1, out, cinfo = ph['s0'], ph['s1'], ph['out'], ph['cinfo']
         if out[0] == 'died':
             replay.update(kind='supervisord would have exited (or answered HTTP 500) during `update`: ' + out[1],
-                          log=repr(run.log))
+                          log=repr(ph['log']))
             self.violation(replay)
             return
         if out[0] == 'hung':
-            replay.update(kind='update did not finish: a deferred RPC never completed', log=repr(run.log))
+            replay.update(kind='update did not finish: a deferred RPC never completed', log=repr(ph['log']))
             self.violation(replay)
             return
         # ---- Coq case
         file0 = s0['file']
         idx0 = dict((id(c), i) for i, c in enumerate(file0))
-        newobjs = run.after_reload or []
+        newobjs = ph['after_reload'] or []
         idx1 = dict((id(c), 100 + i) for i, c in enumerate(newobjs))
         file0_enc = [R.encode_group(c, i) for i, c in enumerate(file0)]
         # file0 was serialised after the update (Automatic already concrete at boot; objects of
@@ -702,10 +750,10 @@ class Update(object):
         kfl = [(g['name'], m['name']) for g in sc['groups'] for m in g['members'] if m.get('killfail')]
         log_terms = []
         order = dict((g['name'], [p[0] for p in g['procs']]) for g in s0['groups'])
-        for method, args, ans in run.log:
+        for method, args, ans in ph['log']:
             log_terms.append(self.event_term(method, args, ans, order))
         if None in log_terms:
-            replay.update(kind='an RPC of do_update answered something undocumented', log=repr(run.log))
+            replay.update(kind='an RPC of do_update answered something undocumented', log=repr(ph['log']))
             self.violation(replay)
             return
         outcome = 'Done' if out[0] == 'done' else '(Escaped %s)' % vlib.zlit(out[1])
@@ -717,7 +765,7 @@ class Update(object):
                                           vlib.blit(g['gid'] not in gids0)))
         enc_name = lambda s_: vlib.bytes_lit(R.enc(s_))
         nb = lambda s_: vlib.bytes_lit(s_.encode('utf-8'))
-        after_enc = run.after_reload_enc
+        after_enc = ph['after_reload_enc']
 
         def build(itn):
             parse = 'ParseErr' if after_enc is None else '(ParseOk %s)' % itn.groups(after_enc)
@@ -730,9 +778,9 @@ class Update(object):
             return '([%s], [%s], %s, %s, [%s], %s, [%s])' % (
                 '; '.join('(%s, %s)' % (nb(g), enc_name(p)) for g, p in kfl),
                 '; '.join(nb(a) for a in sc['args']), parse, d, '; '.join(log_terms), outcome, '; '.join(rows))
-        self.b.add(build, dict(replay, kind=None, log=repr(run.log), outcome=out))
+        self.b.add(build, dict(replay, kind=None, log=repr(ph['log']), outcome=out))
         # ---- the property judged on the implementation's own run
-        self.monitor(sc, run, s0, s1, out, cinfo, replay)
+        self.monitor(sc, run, s0, s1, out, cinfo, replay, ph)
         chk.dist('update:' + ('named' if sc['args'] and 'all' not in sc['args'] else 'all'))
         for g in s0['groups']:
             for p in g['procs']:
@@ -772,15 +820,17 @@ class Update(object):
             return '(CStop %s, %s)' % (nb(args[0]), a)
         return None
 
-    def monitor(self, sc, run, s0, s1, out, cinfo, replay):
+    def monitor(self, sc, run, s0, s1, out, cinfo, replay, ph):
         """C15's update clauses checked directly on what the real code did."""
         from supervisor.xmlrpc import Faults
         chk = self.chk
         k = run.kernel
-        reload_ans = run.log[0][2] if run.log and run.log[0][0] == 'reloadConfig' else None
+        log = ph['log']
+        live = s1['live']
+        reload_ans = log[0][2] if log and log[0][0] == 'reloadConfig' else None
         g0 = dict((g['name'], g) for g in s0['groups'])
         g1 = dict((g['name'], g) for g in s1['groups'])
-        trace_after = k.trace[s0['trace_len']:]
+        trace_after = k.trace[s0['trace_len']:s1['trace_len']]
         killed = set(abs(t[1]) for t in trace_after if t[0] == 'kill')
         forked = [t[2] for t in trace_after if t[0] == 'fork']
 
@@ -792,7 +842,7 @@ class Update(object):
                 return
             for pa, pb in zip(a['procs'], b['procs']):
                 if pa[2] in (10, 20):
-                    if pb[1] != pa[1] or pa[1] in killed or pa[1] not in k.live:
+                    if pb[1] != pa[1] or pa[1] in killed or pa[1] not in live:
                         replay.update(kind='a process of a group that update must not touch lost its pid or was signalled',
                                       group=name, process=pa[0], before=pa[:3], after=pb[:3], why=why)
                         self.violation(replay)
@@ -812,9 +862,9 @@ class Update(object):
         if reload_ans is None or reload_ans[0] == 'fault':
             code = reload_ans[1] if reload_ans else None
             if sc['corrupt']:
-                if not (code == Faults.CANT_REREAD and out == ('fault', Faults.CANT_REREAD) and len(run.log) == 1):
+                if not (code == Faults.CANT_REREAD and out == ('fault', Faults.CANT_REREAD) and len(log) == 1):
                     replay.update(kind='update on an unparsable file: expected CANT_REREAD and no further RPC',
-                                  log=repr(run.log), outcome=out)
+                                  log=repr(log), outcome=out)
                     self.violation(replay)
                 for name in g0:
                     untouched_ok(name, 'the file could not be parsed')
@@ -823,7 +873,7 @@ class Update(object):
                     self.violation(replay)
                 self.outcomes.add(('corrupt',))
             else:
-                replay.update(kind='reloadConfig failed on a well-formed file', log=repr(run.log))
+                replay.update(kind='reloadConfig failed on a well-formed file', log=repr(log))
                 self.violation(replay)
             return
         added, changed, removed = reload_ans[1][0]
@@ -858,11 +908,11 @@ class Update(object):
             self.outcomes.add(('stopping-escape',))
             return
         if out[0] != 'done':
-            replay.update(kind='a fault escaped do_update although every stop succeeded', outcome=out, log=repr(run.log))
+            replay.update(kind='a fault escaped do_update although every stop succeeded', outcome=out, log=repr(log))
             self.violation(replay)
             return
         # convergence of the selected part
-        newobjs = run.after_reload
+        newobjs = ph['after_reload']
         new_by = dict((c.name, c) for c in newobjs)
         for n in removed:
             if sel(n) and n in g1:
@@ -887,7 +937,7 @@ class Update(object):
             for p in g0[n]['procs']:
                 # children of processes that were STARTING, RUNNING or STOPPING (a process left in
                 # UNKNOWN by an earlier failed kill is outside the hypothesis "no kill error")
-                if p[1] and p[2] in (10, 20, 40) and p[1] in k.live:
+                if p[1] and p[2] in (10, 20, 40) and p[1] in live:
                     replay.update(kind='a child of a changed/removed group survived update', group=n, process=p[0], pid=p[1])
                     self.violation(replay)
         if not valid:
@@ -917,7 +967,7 @@ class Update(object):
                            bool(valid), tuple(sorted(set(p[2] for n in touched for p in g0[n]['procs'])))))
         if len(self.samples) < 3 and touched and self.n % 41 == 7:
             self.samples.append({'label': sc.get('label'), 'args': sc['args'], 'reread': [added, changed, removed],
-                                 'rpc_calls': [m for m, _, _ in run.log]})
+                                 'rpc_calls': [m for m, _, _ in log]})
 
 
 def reread_only(up, sc, seed):
